@@ -80,6 +80,9 @@ func c09Doc(feature int, v string, n int) map[string]any {
 		doc["networks"] = map[string]any{"ext": map[string]any{"external": true, "name": "n" + v}}
 		doc["volumes"] = map[string]any{"ev": map[string]any{"external": true}}
 		doc["secrets"] = map[string]any{"es": map[string]any{"environment": "E" + v}}
+	case 12: // values that hold a literal dollar sign, written `$$` in the source
+		s["command"] = []any{"echo", "$$HOME", "$${" + "E}", "cost$$" + v}
+		s["labels"] = map[string]any{"price": "$$5"}
 	}
 	return doc
 }
@@ -98,7 +101,7 @@ func c09SSH(n int, v string) any {
 }
 
 func VerifC09RoundTrip() {
-	feature := vrtChoice("feature", 12)
+	feature := vrtChoice("feature", 13)
 	v := "x" + vrtString("v", vrtParam("VL", 1), "ab")
 	n := []int{1, 0, -1, 3}[vrtChoice("n", 4)]
 	json := vrtChoice("json", 2) == 1
@@ -129,7 +132,7 @@ func VerifC09RoundTrip() {
 	if err2 != nil {
 		vrtObserve("msg", err2.Error())
 	}
-	vrtAssert("rendering-reloads#"+[]string{"ulimits", "healthcheck-command", "bytes", "env-labels-hosts", "grants", "ports-volumes-devices", "depends-networks", "build", "env_file", "device-requests", "logging-sysctls-ext", "external"}[feature], err2 == nil)
+	vrtAssert("rendering-reloads#"+[]string{"ulimits", "healthcheck-command", "bytes", "env-labels-hosts", "grants", "ports-volumes-devices", "depends-networks", "build", "env_file", "device-requests", "logging-sysctls-ext", "external", "escaped-dollar"}[feature], err2 == nil)
 	if err2 != nil {
 		return
 	}
@@ -146,7 +149,7 @@ func VerifC09RoundTrip() {
 		}
 	}
 	vrtObserve("svc1", p1.Services)
-	cls := []string{"ulimits", "healthcheck-command", "bytes", "env-labels-hosts", "grants", "ports-volumes-devices", "depends-networks", "build", "env_file", "device-requests", "logging-sysctls-ext", "external"}[feature]
+	cls := []string{"ulimits", "healthcheck-command", "bytes", "env-labels-hosts", "grants", "ports-volumes-devices", "depends-networks", "build", "env_file", "device-requests", "logging-sysctls-ext", "external", "escaped-dollar"}[feature]
 	if feature == 9 && n == 0 {
 		cls = "device-count-0"
 	}
